@@ -46,10 +46,12 @@ fn handler(world: &Arc<Mutex<World>>) -> Handler {
             (Some(c), m) if m > 0 => c.lock().unwrap().choose(m + 1),
             _ => 0,
         };
-        if name == "slow" && g.slow_ms > 0 {
+        if name == "slow" {
             let ms = g.slow_ms;
             drop(g);
-            std::thread::sleep(std::time::Duration::from_millis(ms));
+            if ms > 0 {
+                std::thread::sleep(std::time::Duration::from_millis(ms));
+            }
             return (Ok(Value::Int(0)), 0);
         }
         let r = if name == "bad" {
